@@ -1,4 +1,4 @@
-import Qfproto.SorterPerm
+import QF.Core.SorterPerm
 /-! Prototype: sortedness of the insertion-sort regime of the mirror. -/
 namespace Sorter
 
